@@ -8,6 +8,8 @@ Reported in the evidence: perturbations generated / detected per operator, and t
 rules are known to detect (found during development); a canary that exists in the current tree but is no longer
 detected is reported as a SELFTEST violation (the checker lost sight of something it used to see)."""
 import copy
+import hashlib
+import json
 
 from . import mirlib as M
 from .core import Ctx, violation_key, short_fn
@@ -58,12 +60,29 @@ def apply(body_raw, op, pt):
     return b
 
 
-def run(doc, rule_fn, prop, canaries=None, cap=400):
+def scope_hash(doc, bodies):
+    """identity of the analysed code: the canaries are a regression test of the CHECKER, so they are only enforced on the very
+    code they were recorded on (any edit of an analysed body, even a benign one, renumbers the perturbation sites)"""
+    h = hashlib.sha1()
+    for name in sorted(bodies):
+        raw = doc['bodies'].get(name)
+        if raw is not None:
+            h.update(name.encode())
+            h.update(json.dumps(raw, sort_keys=True).encode())
+    return h.hexdigest()[:16]
+
+
+def run(doc, rule_fn, prop, canaries=None, cap=400, scope=None):
     F0 = M.Facts(doc)
     ctx0 = Ctx(F0, 'dev', prop, 'thorough')
     rule_fn(ctx0)
     base = set(violation_key(prop, r) for r in ctx0.results if r['verdict'] == 'VIOLATION')
     bodies = sorted(ctx0.analysed_bodies)
+    cur_scope = scope_hash(doc, bodies)
+    skipped = None
+    if canaries and scope is not None and scope != cur_scope:
+        skipped = 'the analysed bodies differ from the tree the canaries were recorded on (recorded %s, now %s): canaries not enforced' % (scope, cur_scope)
+        canaries = []
     gen = []
     for name in bodies:
         raw = doc['bodies'].get(name)
@@ -117,6 +136,8 @@ def run(doc, rule_fn, prop, canaries=None, cap=400):
     missing_canaries = sorted(c for c in want if c in allsites and c not in killed_keys)
     absent = sorted(c for c in want if c not in allsites)
     return {
+        'scope': cur_scope,
+        'canaries_skipped': skipped,
         'sites_in_analysed_bodies': total_sites,
         'generated': len(gen),
         'detected': len(killed_keys),
@@ -126,7 +147,7 @@ def run(doc, rule_fn, prop, canaries=None, cap=400):
         'canaries_absent_from_tree': absent,
         'missed': missing_canaries,
         'detected_sample': killed_keys[:40],
-        'detected_all': killed_keys if not canaries else None,
+        'detected_all': killed_keys,
         'undetected_sample': missed_keys[:40],
         'note': 'an undetected perturbation is not a defect of ddo nor necessarily of the rules (many perturbed constructs are irrelevant to the property); '
                 'only a canary that is present and no longer detected fails the self-test',
